@@ -870,6 +870,35 @@ pub fn run_buildw(args: &[&str]) -> String {
                 Err(e) => err_line(&e),
             }
         }
+        "B" | "H" => {
+            // a buffering writer (std::io::BufWriter) over a growable cursor (B) or a fixed slice (H): what counts is what has
+            // reached the storage when the call returns - bytes still sitting in the buffer would be lost, and their write
+            // errors swallowed, if the caller drops the writer as it may after Ok
+            let mut fixed = storage.clone();
+            let cap = 7 + storage.len() % 23;
+            let (r, seen, pos) = if kind == "B" {
+                let mut c = Cursor::new(storage.clone());
+                c.set_position(start as u64);
+                let mut w = std::io::BufWriter::with_capacity(cap, c);
+                let r = if compressed { p.write_compressed_to(&mut w) } else { p.write_to(&mut w) };
+                let seen = w.get_ref().get_ref().clone();
+                let pos = w.get_ref().position();
+                (r, seen, pos)
+            } else {
+                let mut c = Cursor::new(&mut fixed[..]);
+                c.set_position(start as u64);
+                let mut w = std::io::BufWriter::with_capacity(cap, c);
+                let r = if compressed { p.write_compressed_to(&mut w) } else { p.write_to(&mut w) };
+                let seen = w.get_ref().get_ref().to_vec();
+                let pos = w.get_ref().position();
+                std::mem::forget(w.into_parts());
+                (r, seen, pos)
+            };
+            match r {
+                Ok(()) => format!("OK {} {:x}", bytes_to_hex(&seen), pos),
+                Err(e) => err_line(&e),
+            }
+        }
         "F" => {
             let mut buf = storage.clone();
             let mut c = Cursor::new(&mut buf[..]);
